@@ -259,12 +259,13 @@ func Note(kind, obj string) uint64 {
 	return q
 }
 
-func GoNamed(name string, fn func()) { go fn() }
-func CurName() string                { return "" }
-func CurSpawnSeq() uint64            { return 0 }
-func CurID() int                     { return 0 }
-func SleepCount(name string) int     { return 0 }
-func EnvSleep(d time.Duration)       { time.Sleep(d) }
+func GoNamed(name string, fn func())                { go fn() }
+func CurName() string                               { return "" }
+func CurSpawnSeq() uint64                           { return 0 }
+func CurID() int                                    { return 0 }
+func SleepCount(name string) int                    { return 0 }
+func BlockedCount(namePrefix, whyPrefix string) int { return 0 }
+func EnvSleep(d time.Duration)                      { time.Sleep(d) }
 
 type Map = sync.Map
 
